@@ -428,6 +428,20 @@ def mutational_timescale(
     changepoints = _fixed_changepoints(offset * duration, max_intervals)
     changepoints = np.unique(changepoints)
     # changepoints = np.union1d(changepoints, indexes[nodes_fixed])
+
+    # An interval without any mutations would be rescaled to zero duration, so
+    # merge it into the next (older) interval, or into the previous one if it
+    # is the oldest; this is equivalent to using fewer rescaling intervals
+    merged = [changepoints[0]]
+    for j in changepoints[1:]:
+        if np.sum(counts[merged[-1] : j]) > 0.0:
+            merged.append(j)
+    if merged[-1] != changepoints[-1]:
+        if len(merged) > 1:
+            merged[-1] = changepoints[-1]
+        else:
+            merged.append(changepoints[-1])
+    changepoints = np.array(merged, dtype=np.int32)
     adjust = np.zeros(changepoints.size)
 
     # --- without any internal constraints ---
